@@ -194,7 +194,7 @@ def lexBlob : Str → Option (List Nat × Str)
 /-- the identifier quote character of a provider (`quote_char`) -/
 def Dialect.quoteChar : Dialect → Char
   | .mysql => '`'
-  | _ => '"'
+  | _ => '\x22'
 
 /-! ## DB-API `%` expansion (format / pyformat drivers compute `sql % args`) -/
 
